@@ -338,6 +338,24 @@ def rule_r6(repo, run):
     # dispatcher arity uses the same notion: known mismatch (len(ast.params) counts out/hidden arguments)
     md = wp.func("Wrapp.multi_dispatch")
     uses_params = "len(overload.ast.params)" in wp.seg(md)
+    # each overload is guarded by its own arity: the operands of every SHT_nargs test come from the loop variable
+    loops = [n for n in ast.walk(md) if isinstance(n, ast.For) and isinstance(n.target, ast.Name)
+             and any(isinstance(x, ast.Constant) and isinstance(x.value, str) and "SHT_nargs" in x.value for x in ast.walk(n))]
+    loops = [l for l in loops if not any(o is not l and any(x is o for x in ast.walk(l)) for o in loops)]   # innermost
+    if len(loops) != 1:
+        raise AnalysisError("C03.R6: overload loop of multi_dispatch not found")
+    lv = loops[0].target.id
+    ng = 0
+    for b in ast.walk(loops[0]):
+        if isinstance(b, ast.BinOp) and isinstance(b.op, ast.Mod) and isinstance(b.left, ast.Constant) \
+                and isinstance(b.left.value, str) and "SHT_nargs" in b.left.value:
+            ng += 1
+            roots = set(x.id for x in ast.walk(b.right) if isinstance(x, ast.Name)) - {"len"}
+            run.check(R, "wrapp.Wrapp.multi_dispatch:guard[%s]" % re.sub(r"\s+", " ", b.left.value)[:40], roots == {lv},
+                      "the arity guard `%s` is computed from %s instead of the overload being dispatched (`%s`): every "
+                      "overload is tested against another overload's parameter count"
+                      % (b.left.value.strip(), sorted(roots), lv), wp.loc(b), sample=dict(guard=wp.seg(b)))
+    run.floor(R, "arity guards in the dispatcher", ng, 2)
     run.check(R, "wrapp.Wrapp.multi_dispatch:arity", not uses_params,
               "the dispatcher compares the supplied count with len(overload.ast.params), which also counts "
               "intent(out)/hidden/implied arguments that Python never passes: such overloads are unreachable",
@@ -453,6 +471,39 @@ def rule_r9(repo, run):
     run.floor(R, "operands of textual products", n, 2)
 
 
+def rule_r10(repo, run, T):
+    R = run.rule("C03.R10", "helpers that fill a caller-provided C array (in, insize) from a Python sequence never "
+                            "store more elements than the array holds")
+    n = 0
+    for key, h in sorted(T["helpers"].c.items()):
+        for k, text in tables.helper_sources(h):
+            code = templ.strip_c_comments("\n".join(templ.strip_layout(l) for l in text.split("\n")))
+            if not re.search(r"\binsize\b", code):
+                continue
+            arr, cap = "in", "insize"
+            for st in re.finditer(r"for\s*\(([^;]*);\s*(\w+)\s*<\s*(\w+)\s*;[^)]*\)\s*\{+", code):
+                # body up to the matching close of this loop (brace counting on protected text)
+                depth, j = 1, st.end()
+                while j < len(code) and depth:
+                    depth += {"{": 1, "}": -1}.get(code[j], 0)
+                    j += 1
+                body = code[st.end():j]
+                if not re.search(r"\b%s\s*\[\s*%s\s*\]\s*=[^=]" % (arr, st.group(2)), body):
+                    continue
+                n += 1
+                bound = st.group(3)
+                before = code[:st.start()]
+                clamp = bound == cap or re.search(
+                    r"if\s*\(\s*%s\s*>\s*%s\s*\)\s*\{*\s*%s\s*=\s*%s\s*;" % (bound, cap, bound, cap), before) or \
+                    re.search(r"\b%s\s*=\s*[^;]*\?[^;]*\b%s\b[^;]*;" % (bound, cap), before)
+                run.check(R, "whelpers.CHelpers[%s].%s:%s[%s<%s]" % (key, k, arr, st.group(2), bound), bool(clamp),
+                          "the loop stores %s[%s] for %s < %s but %s is never limited to the capacity %s of the caller's "
+                          "array: a longer Python sequence overwrites what follows the array"
+                          % (arr, st.group(2), st.group(2), bound, bound, cap),
+                          "shroud/whelpers.py", sample=dict(helper=key, bound=bound, capacity=cap))
+    run.floor(R, "array-filling loops in helpers", n, 2)
+
+
 def run(repo, run, tier):
     tables.check_model_assumptions(repo)
     T = dict(py=tables.StatementTable(repo, "wrapp", "py_statements"),
@@ -467,4 +518,5 @@ def run(repo, run, tier):
     rule_r7(repo, run)
     rule_r8(repo, run, T)
     rule_r9(repo, run)
+    rule_r10(repo, run, T)
     run.assumptions.append("LP64 sizes; CPython PyArg_Parse / Py_BuildValue unit table in the checker")
